@@ -244,7 +244,7 @@ func checkGenerate(c *Ctx, m *gensignModel, h *types.Named, gen *ssa.Function) {
 	if vs := rf["KeyId"]; len(vs) >= 1 {
 		for _, v := range vs {
 			if ex, ok := v.(*ssa.Extract); ok && ex.Index == 0 {
-				if mc, ok := ex.Tuple.(*ssa.Call); ok && strings.HasSuffix(calleeName(mc), "keyid.KeyID).Marshal") && mc.Call.Args[0] == ssa.Value(kid) {
+				if mc, ok := ex.Tuple.(*ssa.Call); ok && strings.HasSuffix(calleeName(mc), "keyid.KeyID).Marshal") && w.canon(gen, mc.Call.Args[0]) == ssa.Value(kid) {
 					okId = w.ErrEdgeEnds(gen, extractOf(mc, 1))
 				}
 			}
